@@ -126,3 +126,18 @@ func VerifCustomFallbackPartitioner(topic string) Partitioner {
 	fallback := NewHashPartitioner(topic).(*hashPartitioner)
 	return NewCustomPartitioner(WithCustomFallbackPartitioner(fallback))(topic)
 }
+
+// VerifProducerEpoch reads the current producer epoch of an idempotent producer's transaction manager
+// (-1 for anything else). Observation only.
+func VerifProducerEpoch(p interface{}) int {
+	switch x := p.(type) {
+	case *asyncProducer:
+		if x.txnmgr == nil {
+			return -1
+		}
+		return int(x.txnmgr.producerEpoch)
+	case *syncProducer:
+		return VerifProducerEpoch(x.producer)
+	}
+	return -1
+}
